@@ -15,7 +15,7 @@ from vlib import *
 # recorded fields the specification deliberately does not constrain
 ALLOW_UNCONSTRAINED = {
     # generator family: how a call was made / annotations
-    "upd.f", "realzeros.f", "fix.usz", "hashstream.reads", "hashstream.mr", "hashstream.rs", "stream.g", "file.g",
+    "upd.f", "realzeros.f", "streamzeros.mr", "fix.usz", "hashstream.reads", "hashstream.mr", "hashstream.rs", "stream.g", "file.g",
     # parse error kind / offset: the property names the offending PART only (reported as drift, see DESIGN)
     "parse.r.*.kind", "parse.r.*.off", "parse.r.*.msg", "cmpstr.r.side", "cmpstr.r.origin", "cmpstr.r.kind", "cmpstr.r.off", "cmpstr.r.msg",
     # likewise drift-only: block size relation between objects, array-level observers, error texts
@@ -24,7 +24,8 @@ ALLOW_UNCONSTRAINED = {
     "parse.r.*.k", "parse.r.*.a", "parse.r.*.b", "parse.r.*.valid", "parse.r.*.txt", "parse.r.*.ntxt", "parse.r.*.nvalid", "parse.r.*.origin",
     "fmt.T", "fmt.bufs.*.out", "fmt.bufs.*.untouched",
     "norm.long", "dual.long", "dual.failed", "dual.routes.*.rawmut_valid",
-    "ord.T", "ord.hasheq", "ord.dhasheq", "sort.T", "dualord.heq",
+    "ord.T", "ord.hasheq", "ord.dhasheq", "sort.T", "dualord.heq", "dualord.heq.*",
+    "streamzeros.n", "streamzeros.r.id", "streamzeros.r.kind",   # n is only constrained when no failure is injected; id / kind only when one is
     "op.h", "op.t", "op.d", "op.src", "op.obs.isn",
     "ctor.log", "ctor.bs", "ctor.l1", "ctor.l2", "ctor.a", "ctor.b", "ctor.obs.*", "ctor.uobs.*",
     "tinit.via", "tobs.t", "pobs.p", "tinit.t", "tfrom.t", "tnew.t", "pinit.p", "pnew.p", "pclear.p",
@@ -244,7 +245,7 @@ NEG = [
     ("reader loop feeds one byte too many", "MCStream.tla", ("/\\ fed' = fed + got ", "/\\ fed' = fed + got + (IF got = BUF THEN 1 ELSE 0) "), "MCStream.tla", "MCStream.cfg"),
     ("incremental rolling hash forgets to subtract the outgoing byte", "Hashes.tla", ("h1a == WSub(WAdd(s.h1, WOf(c)), WOf(s.win[s.idx + 1]))", "h1a == WAdd(s.h1, WOf(c))"), "MCHashes.tla", "MCHashes_scaled.cfg"),
     ("dual parser without the raw length accounting (finding F1)", "ParserMachine.tla", ("IF kind.dual /\\ Len(r2.out) + r2.extra > cap2 THEN", "IF FALSE THEN"), "MCParser.tla", "MCParser_quick.cfg"),
-    ("capacity check before run collapsing (seed C04)", "ParserMachine.tla", ("IF normalize /\\ curr = st.prev /\\ st.seq + 1 >= MAXRUN\n", "IF normalize /\\ curr = st.prev /\\ st.seq + 1 >= MAXRUN /\\ (strict \\/ Len(st.out) < n)\n"), "MCParser.tla", "MCParser_quick.cfg"),
+    ("capacity check before run collapsing (seed C04)", "ParserMachine.tla", ("IF normalize /\\ curr = st.prev /\\ st.seq + 1 >= MAXRUN\n       THEN [st EXCEPT !.seq = MAXRUN,", "IF normalize /\\ curr = st.prev /\\ st.seq + 1 >= MAXRUN /\\ (strict \\/ Len(st.out) < n)\n       THEN [st EXCEPT !.seq = MAXRUN,"), "MCParser.tla", "MCParser_quick.cfg"),
     ("into_mut_long_form without clearing the second half", "Objects.tla", ("ELSE 0],                     \\* blockhash2[HALF..FULL].fill(0)", "ELSE dst.arr[i]],"), "MCObjects.tla", "MCObjects.cfg"),
     ("dual compression leaves stale RLE symbols (seeds C07 / C11 / C15)", "Objects.tla", ("ELSE 0]]                          \\* rle_block_out[rle_offset..].fill(TERMINATOR)", "ELSE IF i = Len(c.rle) + 1 THEN 0 ELSE dst.rle[i]]]"), "MCObjects.tla", "MCObjects.cfg"),
     ("in-place normalisation without clearing the freed tail", "Objects.tla", ("IF x > len /\\ x <= old THEN 0 ELSE arr[x]]", "arr[x]]"), "MCObjects.tla", "MCObjects.cfg"),
